@@ -46,8 +46,13 @@ def write(prop, tier, seed, coverage, wall_s, violations, assumptions, level="mo
     return path
 
 
+def replay_dir():
+    e = os.environ.get("VERIF_EVIDENCE_DIR")
+    return os.path.join(e, "replays") if e else os.path.join(VERIF, "replays")
+
+
 def write_replay(prop, rec, idx=0):
-    d = os.path.join(VERIF, "replays")
+    d = replay_dir()
     os.makedirs(d, exist_ok=True)
     path = os.path.join(d, f"{prop}-{idx}.json")
     with open(path, "w") as f:
